@@ -2,9 +2,13 @@ package main
 
 import (
 	"fmt"
+	"os"
+	"path/filepath"
 	"sort"
 	"strings"
 	"sync"
+
+	"github.com/go-critic/go-critic/linter"
 
 	"verif/mc/internal/evidence"
 	"verif/mc/internal/fp"
@@ -49,6 +53,15 @@ func (a snapshot) diff(b snapshot) string {
 		d = append(d, "registry/params")
 	}
 	return strings.Join(d, "+")
+}
+
+func paramDump(info *linter.CheckerInfo) string {
+	var out []string
+	for k, p := range info.Params {
+		out = append(out, fmt.Sprintf("%s=%v", k, p.Value))
+	}
+	sort.Strings(out)
+	return strings.Join(out, " ")
 }
 
 func c05(args []string) int {
@@ -207,6 +220,65 @@ func c05(args []string) int {
 		}
 	}
 	st := runCorpus(corpus, runOpts{allowErrors: allowCaseOrder, noVisit: true}, handle)
+	// registered parameter values around construction and use, for every value of the small domain (sequential:
+	// parameter values are process-global registry state)
+	{
+		os.Chdir(filepath.Join(evidence.Root, "mc")) // rule files import the dsl package through the harness module
+		tdBy := map[string][]progenum.Prog{}
+		testdataProgs(func(p progenum.Prog) { tdBy[p.Meta["checker"]] = append(tdBy[p.Meta["checker"]], p) })
+		probe := harness.LoadOne("package vpkg\n\nfunc f(a, b int) int {\n\ta = a + b\n\treturn a\n}\n")
+		nv := 0
+		for _, info := range harness.Infos(nil) {
+			var pn []string
+			for k := range info.Params {
+				pn = append(pn, k)
+			}
+			sort.Strings(pn)
+			for _, k := range pn {
+				orig := info.Params[k].Value
+				var domain []interface{}
+				switch orig.(type) {
+				case int:
+					domain = []interface{}{-1, 0, 1, 1 << 20}
+				case bool:
+					domain = []interface{}{true, false}
+				case string:
+					domain = []interface{}{"", "all", "dsl", "x,y"}
+					if info.Name == "ruleguard" && k == "rules" {
+						domain = []interface{}{"", filepath.Join(evidence.Root, "fixtures", "rules", "validA.go"), filepath.Join(evidence.Root, "fixtures", "rules", "validA.go") + "," + filepath.Join(evidence.Root, "fixtures", "rules", "dslerr.go")}
+					}
+				}
+				for _, v := range domain {
+					info.Params[k].Value = v
+					before := fp.Registry()
+					set, err := harness.NewSet(harness.Infos([]string{info.Name}), "")
+					if err == nil {
+						set.VisitAll(probe)
+						for _, p := range tdBy[info.Name] {
+							pk := harness.Load(p.Path, p.Files)
+							if len(pk.Errs) == 0 {
+								set.VisitAll(pk)
+							}
+							pk.Release()
+						}
+					}
+					after := fp.Registry()
+					nv++
+					nFP++
+					ev.Eval(1)
+					ev.Nontrivial(fmt.Sprintf("registry|%s.%s=%v", info.Name, k, v))
+					if before != after {
+						ev.Violate(evidence.Violation{Key: info.Name + "|writes|registered-parameters", What: "constructing or running checker " + info.Name + " changes registered metadata or parameter values",
+							Observed: fmt.Sprintf("with %s.%s=%v (constructor error: %v): registry fingerprint %x -> %x; values now: %s", info.Name, k, v, err, before, after, paramDump(info)),
+							Replay:   map[string]interface{}{"kind": "parameter", "checker": info.Name, "param": k, "value": fmt.Sprint(v)}})
+					}
+					info.Params[k].Value = orig
+				}
+				info.Params[k].Value = orig
+			}
+		}
+		ev.Set("parameter_values_with_registry_fingerprint", nv)
+	}
 	ev.Set("programs_run", st.ran)
 	ev.Set("fingerprint_comparisons", nFP)
 	ev.Set("checkers_per_program", len(harness.Infos(nil)))
